@@ -15,7 +15,7 @@ func GenC13(r *RNG) *SrvPlan {
 	maxHdr := Pick(r, 256, 4096, 0)
 	p.Srv = SrvCfg{MaxConcurrentStreams: mcs, PingInterval: -1, MaxRequestBodySize: maxBody, MaxHeaderListSize: maxHdr}
 	p.Peer = PeerCfg{InitialWindow: 1 << 20, MaxFrameSize: -1, HeaderTableSize: -1, AutoWindow: true, ConnWindowBoost: 1 << 24, LinkCap: Pick(r, 0, 4096)}
-	kind := Pick(r, "rapid-reset", "half-open", "priority-idle", "continuation-flood", "continuation-long-field", "continuation-long-field-refused", "over-sent-body", "over-declared-body", "mis-declared-body", "ping-flood", "settings-flood", "timeout-refill", "mixed")
+	kind := Pick(r, "rapid-reset", "half-open", "priority-idle", "continuation-flood", "continuation-long-field", "continuation-long-field-refused", "over-sent-body", "over-declared-body", "mis-declared-body", "ping-flood", "settings-flood", "timeout-refill", "trailers-over-limit", "mixed")
 	n := Pick(r, 40, 150, 400)
 	if k := os.Getenv("VERIF_C13_KIND"); k != "" {
 		kind = k // development aid: pin the attack kind
@@ -23,6 +23,10 @@ func GenC13(r *RNG) *SrvPlan {
 	if kind == "continuation-long-field" || kind == "continuation-long-field-refused" {
 		n = Pick(r, 150, 400, 800)
 		p.Peer.LinkCap = 0 // its frames are larger than the capped link lets through at once
+	}
+	if kind == "trailers-over-limit" {
+		p.Srv.MaxHeaderListSize = 4096
+		n = Pick(r, 10, 40)
 	}
 	p.Trail = "c13:" + kind
 	hdrs := func(rid int, end bool) Op {
@@ -44,6 +48,13 @@ func GenC13(r *RNG) *SrvPlan {
 			addReq(hdrs(rid, true), Op{Kind: "rst", Code: 8, Pad: -1, TableSize: -1})
 		case "half-open":
 			addReq(hdrs(rid, false))
+		case "trailers-over-limit":
+			// a header block and a trailer block that are each within MaxHeaderListSize and together well above it: the
+			// handler is given one list
+			h := hdrs(rid, false)
+			h.Fields = append(h.Fields, HF{"x-fill", strings.Repeat("h", p.Srv.MaxHeaderListSize*55/100-250)})
+			t := Op{Kind: "trailers", Fields: []HF{{"x-trail", strings.Repeat("t", p.Srv.MaxHeaderListSize*60/100)}}, EndStream: true, Pad: -1, TableSize: -1}
+			addReq(h, Op{Kind: "data", Len: 10, Pad: -1, TableSize: -1}, t)
 		case "timeout-refill":
 			// complete requests whose handlers outlive ReadTimeout: the server gives up on the streams, the handlers keep
 			// their slots, and the peer keeps asking
